@@ -5,6 +5,7 @@
    stated ranges; masks over all boolean arrays.  [shift_of] is Field.shift (the tilt shift of a
    field, property C04): a wavefront "without tilt" is one whose fields it maps to (0, 0). *)
 From LV Require Import Model.Propagate Proofs.FieldP Proofs.PropagateP Proofs.PropagateOutcomeP Proofs.PropagateInsertP Lib.Instances.
+From Coq Require Import Permutation.
 
 (* Every sample (i, j) of Wavefront.field of the propagated wavefront, at plane coordinate
    (u, v) = (i - floor(S_r os / 2), j - floor(S_c os / 2)), is
@@ -322,3 +323,44 @@ Theorem C02_focal_length_rule :
   wfocal w' = match wfocal w with Some z => if Qc_eq_bool z 0%Qc then None else Some z | None => None end.
 Proof. exact propagate_focal_rule. Qed.
 Print Assumptions C02_focal_length_rule.
+
+(* the order in which a wavefront holds its fields (the order of the segments of a plane, of the loop in
+   propagate_dft) is irrelevant: two wavefronts that differ only by a permutation of their fields propagate
+   to the same Wavefront.field, sample by sample, for any per-field shifts, window and mask *)
+Theorem C02_field_order_irrelevant :
+  forall (S : Scalar), is_ring S -> kernel_laws S -> forall (sq : Qc -> S)
+    (shift_of : field S -> Qc * Qc) (w1 w2 : wavefront S) (dur duc : Qc) (shape pshape : option (Z * Z)) (os : Z)
+    (mask : option bmask) (dxr dxc : Qc) (Sr Sc Pr Pc : Z) (b : extent),
+  Permutation (wdata w1) (wdata w2) ->
+  wwl w1 = wwl w2 -> wfocal w1 = wfocal w2 -> wshape w1 = wshape w2 ->
+  wptype w1 <> PtNone -> wptype w2 <> PtNone -> wps w1 = Some (dxr, dxc) -> wps w2 = Some (dxr, dxc) ->
+  (forall f, In f (wdata w1) -> exists a, fd f = D2 a) ->
+  match shape with None => wshape w1 | Some s => s end = (Sr, Sc) ->
+  match pshape with None => (Sr, Sc) | Some p => p end = (Pr, Pc) ->
+  0 < Sr -> 0 < Sc -> 0 < Pr -> 0 < Pc -> 1 <= os ->
+  (forall m, mask = Some m -> mnr m = Sr * os /\ mnc m = Sc * os) ->
+  mask_bbox mask (Sr * os) (Sc * os) = Ok b ->
+  exists w1' w2' o1 o2,
+    propagate_dft sq shift_of w1 dur duc shape pshape os mask = Ok w1' /\ wfield w1' = Ok o1 /\
+    propagate_dft sq shift_of w2 dur duc shape pshape os mask = Ok w2' /\ wfield w2' = Ok o2 /\
+    nr o1 = nr o2 /\ nc o1 = nc o2 /\
+    (forall i j, 0 <= i < Sr * os -> 0 <= j < Sc * os -> get o1 i j = get o2 i j).
+Proof. exact propagate_dft_field_order. Qed.
+Print Assumptions C02_field_order_irrelevant.
+
+(* non-vacuity: the two-field wavefront of C02_nonvacuous and the same with its fields exchanged *)
+Example C02_field_order_nonvacuous :
+  let f1 := mkField (S := ZS) (D2 (mkArr (S := ZS) 2 2 (fun i j => 1 + i + 2 * j))) 1 (-1) [] in
+  let f2 := mkField (S := ZS) (D2 (mkArr (S := ZS) 1 3 (fun _ j => j + 1))) 0 1 [] in
+  let mk := fun fs => mkWf (S := ZS) (Q2Qc (1 # 2)) (Some (Q2Qc (1 # 2), Q2Qc (1 # 4))) (Some (Q2Qc 4)) (3, 4) PtPupil fs in
+  Permutation (wdata (mk [f1; f2])) (wdata (mk [f2; f1])) /\
+  exists wa wb oa ob,
+    propagate_dft (S := ZS) (fun _ => 1) no_shift (mk [f1; f2]) (Q2Qc (1 # 4)) (Q2Qc (1 # 8)) (Some (2, 3)) None 2 None = Ok wa /\
+    propagate_dft (S := ZS) (fun _ => 1) no_shift (mk [f2; f1]) (Q2Qc (1 # 4)) (Q2Qc (1 # 8)) (Some (2, 3)) None 2 None = Ok wb /\
+    wfield wa = Ok oa /\ wfield wb = Ok ob /\ get oa 1 2 = 16 /\ get ob 1 2 = 16 /\ length (wdata wa) = 2%nat.
+Proof.
+  cbv zeta. split; [apply perm_swap|].
+  eexists. eexists. eexists. eexists. split; [vm_compute; reflexivity|]. split; [vm_compute; reflexivity|].
+  split; [vm_compute; reflexivity|]. split; [vm_compute; reflexivity|].
+  split; [vm_compute; reflexivity|]. split; [vm_compute; reflexivity|]. vm_compute. reflexivity.
+Qed.
